@@ -72,24 +72,18 @@ def main():
         if rc == 0:
             print("demo passes with the patch applied: not a demonstration")
             return 1
+        # detection by the registered checks, pointed at the patched scratch worktree (VERIF_REPO): /repo is not touched
+        os.remove(os.path.join(wt, "tests", "seed_demo.rs"))
+        detected = {}
+        for c in checks:
+            p = subprocess.run([os.path.join(ROOT, "check"), c, "--tier", tier], cwd=ROOT, stdout=subprocess.PIPE, stderr=subprocess.PIPE, text=True,
+                               env=dict(os.environ, VERIF_REPO=wt))
+            v = [l for l in p.stdout.splitlines() if l.startswith("VIOLATION")]
+            detected[c] = {"exit": p.returncode, "violations": len(v), "first": v[:1]}
+            ran.append("patched scratch worktree: VERIF_REPO=<worktree> ./check %s --tier %s -> exit %d, %d VIOLATION lines" % (c, tier, p.returncode, len(v)))
     finally:
         subprocess.run(["git", "-C", "/repo", "worktree", "remove", "--force", wt])
         shutil.rmtree(wt, ignore_errors=True)
-    # detection by the registered checks, against /repo itself
-    rc, out = run(["git", "-C", "/repo", "apply", "--check", diff])
-    if rc != 0:
-        print("patch does not apply to /repo")
-        return 1
-    detected = {}
-    subprocess.run(["git", "-C", "/repo", "apply", diff], check=True)
-    try:
-        for c in checks:
-            p = subprocess.run([os.path.join(ROOT, "check"), c, "--tier", tier], cwd=ROOT, stdout=subprocess.PIPE, stderr=subprocess.PIPE, text=True)
-            v = [l for l in p.stdout.splitlines() if l.startswith("VIOLATION")]
-            detected[c] = {"exit": p.returncode, "violations": len(v), "first": v[:1]}
-            ran.append("patched /repo: ./check %s --tier %s -> exit %d, %d VIOLATION lines" % (c, tier, p.returncode, len(v)))
-    finally:
-        subprocess.run(["git", "-C", "/repo", "checkout", "--", "."], check=True)
     am = json.load(open(ameta)) if os.path.exists(ameta) else {}
     d = os.path.join(ROOT, "seeded", sid)
     os.makedirs(d, exist_ok=True)
